@@ -191,8 +191,15 @@ func wgRun(t *testing.T, sp *wgSpec) {
 		if g0.Err == "" {
 			in.Orders = wgDrawOrders(rt, g0, sp.maxExh, sp.nRand)
 		}
+		if rapid.IntRange(0, 2).Draw(rt, "builderHistory") == 0 {
+			// same name pool, so the prior model nearly always defines the same type#relation keys differently
+			in.Prior = gen.GraphModel(rt, gen.GraphOpts{MultiThis: true, SmallModels: true, Hazards: true})
+		}
 		res := wgEvaluate(in, wgOpts{RealBuilds: sp.builds})
 		cls := wgClasses(res, m)
+		if in.Prior != nil {
+			cls = append(cls, "builder:reused-after-another-model")
+		}
 		if res.Accepted {
 			cls = append(cls, "lib:accepted")
 		} else if res.LibOK == 0 {
